@@ -8,8 +8,8 @@ package router
 //
 // Time is virtual: one tick = 5 minutes; a Tick ages every stored instant
 // (lastFailure, lockedUntil) by one tick instead of sleeping.  The background
-// scan goroutine sleeps 5 real minutes before its first pass, so pruning only
-// happens when the behaviour says Prune (pruneLoginAttempts is called).
+// scan goroutine is never started (its sync.Once is consumed by the harness), so
+// pruning only happens when the behaviour says Prune (pruneLoginAttempts is called).
 //
 // "password verification ran" is observed by wrapping the credential store:
 // a refused attempt must not read the user record at all.
@@ -107,6 +107,10 @@ func vkRLSetup(users []string) (*vkRLWorld, error) {
 			return nil, err
 		}
 	}
+	// Park the background scan: its goroutine is started once, by the first CheckRateLimit/RecordFailure, and
+	// prunes every 5 REAL minutes - in a long (or starved) run it would forget aged records behind the
+	// behaviour's back.  Consuming the Once here means it never starts; Prune steps call pruneLoginAttempts.
+	scanOnce.Do(func() {})
 	InitializeValidations() // "@credentials", for the credentials-in-body channel
 	w.mux = NewRouter("verif-c24")
 	ok200 := func(session *Session, rw http.ResponseWriter, r *http.Request) int {
